@@ -6,8 +6,8 @@ Open Scope N_scope. Open Scope string_scope. Open Scope list_scope.
 From FB.Base Require Import PyVal Fs.
 From FB.Spec Require Import Prog Ref Oracle.
 From FB.Gen Require Import JsonUtilGen.
-From FB.Model Require Import Types Monad Builder Persist Build Run Frame.
-From FB.Proofs Require Import CleanLaws FrameLaws RollbackDirsLaws ViewDefs ViewInit ViewXDefs ViewXRun CommitDirs2Main.
+From FB.Model Require Import Types Monad SimpleOps Builder Persist Build Run Frame.
+From FB.Proofs Require Import CleanLaws FrameLaws RollbackDirsLaws ViewDefs ViewInit ViewXDefs ViewXRun ViewR2 ViewR3 CommitDirs2Main CommitDirs3Main.
 (* T1g: Model/BuildDirs.v and Model/CreatedFiles.v are equal to the translation of build_dirs.py / created_files.py
    (Gen/BookGen.v, regenerated on every run); a change of those sources that the model does not follow breaks this import *)
 From FB.Proofs Require BookGenLaws.
@@ -22,6 +22,26 @@ Import ListNotations.
    (first builds); for arbitrary previous caches relative to the cache-hit statements of
    CommitDirs2Run.v (Proofs/CommitDirs2*.v).  The read-back equalities are what C16_cache_roundtrip
    gives. *)
+(* the same for ARBITRARY well-formed previous caches (Proofs/CommitDirs3*.v) *)
+Theorem C12_build_then_clean_restores_the_tree_any_cache : forall cf nm vers svers root w w' v (P : path -> Prop) nm' f c',
+  w_faults w = [] -> sanitize vers = Some svers -> AllTargets P root -> fs_wf (w_fs w) ->
+  (forall a t, (P t \/ t = cf \/ In t (cache_targets (old_cache_of (w_fs w) cf nm svers))) ->
+     below a t = true -> (forall f, lookup (w_fs w) a <> Some (NFile f)) /\ ~ P a) ->
+  (forall d, In d (c_dirs (old_cache_of (w_fs w) cf nm svers)) -> path_ok d = true) ->
+  WfCache (old_cache_of (w_fs w) cf nm svers) -> old_ok (old_cache_of (w_fs w) cf nm svers) cf ->
+  (forall p, P p -> tgtP p) -> isdir (w_fs w) cf = false -> (maxlen (w_fs w) < walk_fuel)%nat ->
+  path_ok (dirname cf) = true ->
+  vdir (start_world w cf (old_cache_of (w_fs w) cf nm svers) nm svers) (dirname cf) = true ->
+  run_build cf nm vers root w = (w', Done (inl v)) ->
+  w_faults w' = [] ->
+  lookup (w_fs w') cf = Some (NFile f) -> cache_of_json (f_json f) = ReadOk c' ->
+  cache_created_files c' = cache_created_files (w_new w') -> c_dirs c' = c_dirs (w_new w') ->
+  (match nm' with Some n => String.eqb (c_name c') n | None => true end) = true ->
+  exists w'', m_clean cf nm' w' = (w'', Done (inl PNone)) /\
+    (forall p g, lookup (w_fs w'') p = Some (NFile g) -> lookup (w_fs w) p = Some (NFile g)) /\
+    (forall d, lookup (w_fs w'') d = Some NDir -> lookup (w_fs w) d = Some NDir).
+Proof. exact build_then_clean_exact_wf. Qed.
+
 Theorem C12_build_then_clean_restores_the_tree : forall cf nm vers svers root w w' v (P : path -> Prop) nm' f c',
   w_faults w = [] -> sanitize vers = Some svers -> AllTargets P root -> fs_wf (w_fs w) ->
   (forall a t, (P t \/ t = cf \/ In t (cache_targets (old_cache_of (w_fs w) cf nm svers))) ->
